@@ -59,6 +59,7 @@ func indexTrace(t *Trace) *accIndex {
 // rule is stated on the observed trace itself (not against one monolithic
 // model), so that a defect in one aspect is attributed to its own property.
 func CheckRecRules(r *verifsim.Run, t *Trace, p RecParams) {
+	CheckStartRule(r, t, p)
 	recs, bad := t.Protocol(SinkMotion)
 	if bad != "" {
 		r.Violate("C12", "C12.protocol", "motion:"+stripEv(bad), "motion sink: %s; calls: %s", bad, t.CallString(SinkMotion, 0, len(t.Ev)))
@@ -258,6 +259,11 @@ func CheckRecRules(r *verifsim.Run, t *Trace, p RecParams) {
 		}
 	}
 
+}
+
+// CheckStartRule: C04 on the observed trace. It needs only the start/stop calls and the motion
+// callbacks, so it is evaluated even when the write protocol of the sink is malformed.
+func CheckStartRule(r *verifsim.Run, t *Trace, p RecParams) {
 	// ---- C04 ---------------------------------------------------------------
 	open := false
 	run := 0
